@@ -13,6 +13,7 @@ slice_log.py — log8 / log16 count-min (C05 log part, C06, C09 log part, C18 lo
                 nearest-counter specification (Lean, scaled integers, log8) and a model-independent
                 high-precision oracle (ties within 1e-9 of the gap accept either neighbour)
 """
+import os
 import struct
 import time
 from decimal import Decimal, getcontext
@@ -393,6 +394,65 @@ def log_history(res, rng, tier, pids, n_cases, budget_s):
     res.traces += n
     res.count("log_history_comparisons", ncmp)
     res.slices["log_history"] = {"cases": n, "comparisons": ncmp, "mismatches": len(mism), "wall_s": round(time.time() - t0, 1)}
+
+
+# ------------------------------------------------------------------------------------ fresh_draw_state
+
+
+def fresh_draw_state(res, rng, tier):
+    """The draw state of a NEW instance (constructor, load, a fresh target of a merge): the model's `RandState.init` is
+    (batch 0, pointer 0) over a batch of 2048 fresh uniform draws.  Every other log slice PLACES its own draws, so this is the
+    only place where the instance's own first batch is used: `rand_ptr == 0`, 2048 distinct values in [0, 1), and the first unit
+    add on a counter above num_reserved consumes exactly `rand_nums[0]` and advances iff `rand_nums[0] < base ** -(c - nr)`."""
+    s = sk()
+    t0 = time.time()
+    n = 0
+    for kind, cls, mc, nr in (("log8", s.CountMinLog8, 2**32 - 1, 15), ("log16", s.CountMinLog16, 2**32 - 1, 1023), ("log8", s.CountMinLog8, 10**6, 3)):
+        for origin in ("ctor", "load", "merge-into-new"):
+            for rep in range(3 if tier == "quick" else 12):
+                src = cls(3, 2, mc, nr)
+                c0 = nr + rng.randrange(2, 40)
+                src.cms[:] = c0
+                if origin == "ctor":
+                    o = cls(3, 2, mc, nr)
+                    o.cms[:] = c0
+                elif origin == "load":
+                    p = os.path.join("/dev/shm" if os.path.isdir("/dev/shm") else "/tmp", "skverif_fd_%d.npz" % os.getpid())
+                    src.save(p)
+                    o = cls.load(p)
+                    os.unlink(p)
+                else:
+                    o = cls(3, 2, mc, nr)
+                    o.merge(src)
+                what = None
+                ptr0 = int(o.rand_ptr)
+                draws = np().array(o.rand_nums, dtype=np().float64).copy()
+                if ptr0 != 0:
+                    what = f"rand_ptr of a new instance is {ptr0}, not 0"
+                elif len(draws) != 2048 or not ((draws >= 0.0) & (draws < 1.0)).all() or len(set(draws.tolist())) < 2000:
+                    what = f"the first batch of a new instance is not 2048 fresh uniform [0,1) draws ({len(set(draws.tolist()))} distinct values, min {draws.min()}, max {draws.max()})"
+                else:
+                    c = int(o.cms[0, 0])
+                    before = int(o.query(b"k") if False else min(int(o.cms[r, :].min()) for r in range(2)))
+                    o.add(b"k", 1)
+                    after_ptr = int(o.rand_ptr)
+                    cols = [int(np().nonzero(o.cms[r] != c)[0][0]) if (o.cms[r] != c).any() else None for r in range(2)]
+                    advanced = any(x is not None for x in cols)
+                    want = bool(draws[0] < float(o.base) ** (-(c - nr)))
+                    if after_ptr != 1:
+                        what = f"the first unit add on a counter above num_reserved moved rand_ptr from 0 to {after_ptr} (one draw expected)"
+                    elif advanced != want:
+                        what = (f"the first unit add on counter {c} (num_reserved {nr}) {'advanced' if advanced else 'did not advance'} the counter, but its draw rand_nums[0] = {draws[0]!r} "
+                                f"{'<' if want else '>='} base**-(c-nr) = {float(o.base) ** (-(c - nr))!r}")
+                n += 1
+                res.evaluations += 1
+                res.nontrivial(["fresh_draw_state", kind, mc, nr, origin, rep])
+                res.count("fresh_instances_" + origin)
+                if what:
+                    res.oracle_failures.append({"pid": "C06", "what": f"C06 {kind}(max_count={mc}, num_reserved={nr}) instance from {origin}: {what}",
+                                                "kind": kind, "origin": origin})
+                del o, src
+    res.slices["fresh_draw_state"] = {"instances": n, "wall_s": round(time.time() - t0, 1)}
 
 
 # ------------------------------------------------------------------------------------ rand_refill
